@@ -262,3 +262,23 @@ def _iteration(V):
             V.ensure("post/interleaved-iterators-independent", z3.BoolVal(ids(got) == [0, 0, 1, 1]))
         except PyExc:
             V.ensure("post/interleaved-iterators-independent", z3.BoolVal(False))
+
+
+@P.unit(f"{ENS}.__getitem__", name="slicing yields the conformer views of the selected rows")
+def _slices(V):
+    I, st = V.I, V.st
+    nc, na = V.choose([(2, 1), (1, 2), (2, 3)], "shape")      # non-square on purpose
+    e = M.mk_ens(V, nc, na, bonds=())
+    lo = V.choose([None, 0, 1, -1], "start")
+    hi = V.choose([None, 1, 2, 5], "stop")
+    V.witness(lambda ev: {"op": "slice", "nc": nc, "na": na, "start": lo, "stop": hi, "signature": "slice"})
+    V.cover()
+    out = V.method(e, "__getitem__", [slice(lo, hi, None)], qual=f"{ENS}.__getitem__")
+    V.ensure("post/returns", z3.BoolVal(out.returned))
+    if out.returned:
+        items = out.value.items if isinstance(out.value, ListV) else None
+        want = list(range(nc))[slice(lo, hi)]
+        V.ensure("post/one-view-per-selected-conformer-in-order",
+                 z3.BoolVal(items is not None and [x.fields.get("_conf_id") for x in items] == want and all(x.fields.get("_parent") is e for x in items)))
+    bad = V.method(e, "__getitem__", ["x"], qual=None)
+    V.ensure("post-exc/other-locators-rejected", z3.BoolVal(bad.raised(I, "ValueError")))
